@@ -914,31 +914,34 @@ def cellmask(cells, k):
 _SHORT = {}
 
 
+SHORT_K = 3           # patterns up to this length are tabulated over S<=8
+
+
 def short_table_chunk(shard):
-    """{pattern of length <= 2: {text: tuple of the occupied-cell sets (bit masks) of its
+    """{pattern of length <= 3: {text: tuple of the distinct occupied-cell sets (bit masks) of its
     occurrences}} for the texts of one chunk; plain tabulation of the definition."""
     n, lo, hi = shard
-    out = {(): {}, (0,): {}, (0, 1): {}, (1, 0): {}}
+    out = {p: {} for k in range(SHORT_K + 1) for p in R.perms(k)}
     for t in R.perms(n)[lo:hi]:
-        out[()][t] = (cellmask(F.occupied_cells(t, ()), 0),)
-        out[(0,)][t] = tuple({cellmask(F.occupied_cells(t, (i,)), 1) for i in range(n)})
-        up, down = set(), set()
-        for i in range(n):
-            for j in range(i + 1, n):
-                (up if t[i] < t[j] else down).add(cellmask(F.occupied_cells(t, (i, j)), 2))
-        out[(0, 1)][t] = tuple(up)
-        out[(1, 0)][t] = tuple(down)
+        acc = {}
+        for k in range(0, min(SHORT_K, n) + 1):
+            for idx in itertools.combinations(range(n), k):
+                p = R.std([t[i] for i in idx])
+                acc.setdefault(p, set()).add(cellmask(F.occupied_cells(t, idx), k))
+        for p in out:
+            out[p][t] = tuple(acc.get(p, ()))
     return None, out
 
 
 def short_table(ctx=None):
     if not _SHORT:
         shards = [(n, lo, hi) for n in range(AUTO_MAXLEN + 1)
-                  for lo, hi in chunks(len(R.perms(n)), 1260)]
+                  for lo, hi in chunks(len(R.perms(n)), 630)]
         res = ctx.pmap(short_table_chunk, shards) if ctx is not None else \
             [short_table_chunk(sh)[1] for sh in shards]
-        for p in ((), (0,), (0, 1), (1, 0)):
-            _SHORT[p] = {}
+        for k in range(SHORT_K + 1):
+            for p in R.perms(k):
+                _SHORT[p] = {}
         for d in res:
             for p, m in d.items():
                 _SHORT[p].update(m)
@@ -946,13 +949,13 @@ def short_table(ctx=None):
 
 
 def describes_short(sgN, t):
-    """describes(), with the patterns of length <= 2 looked up in the tabulated occupied cells."""
+    """describes(), with the patterns of length <= 3 looked up in the tabulated occupied cells."""
     tab = short_table()
     rest = {}
     for j, lvl in sgN.items():
         if j > len(t) or not lvl:
             continue
-        if j > 2:
+        if j > SHORT_K:
             rest[j] = lvl
             continue
         for p, hs in lvl.items():
